@@ -514,6 +514,11 @@ class Raises(object):
                 out |= set(self.k.param_kinds.get((f.qualname, name), ())) or set(env.get(name, ()))
                 if name in f.defaults:
                     out |= self.k.ek(f.defaults[name], f, env)
+                # a public function is called by the user too: the kinds seen at the package's own call sites (or a default) are not all there are,
+                # unless the reviewed parameter table says so
+                if not (f.name.startswith("_") and not f.name.startswith("__")) and (f.short, name) not in self.k.param_table \
+                        and not (f.cls is not None and f.cls.name.startswith("_")):
+                    out.add("?")
                 if f.params and name == f.params[0] and f.has_self and f.cls is not None:
                     out = set(self.k.self_kinds(f.cls))
                 continue
